@@ -603,7 +603,7 @@ theorem tw_create (w : World) (hq : w.q = Quirks.fixed) (addr : Nat) (dcid rand 
   exact ⟨b1, fun h => a2 (b2 h)⟩
 
 macro "inert_simp" : tactic =>
-  `(tactic| (intro ctx s; simp only [createStream, write, writeEof, waitConnected, waitClosed, transmitSoon];
+  `(tactic| (intro ctx s; simp only [createStream, cancelCaller, write, writeEof, waitConnected, waitClosed, transmitSoon];
              (repeat' split) <;> simp))
 
 /-- every step: silent monitors afterwards ⇒ silent before, and the routing clause is kept -/
@@ -636,6 +636,9 @@ theorem step_tw (w : World) (hq : w.q = Quirks.fixed) (op : Op) (hQ : QT (step w
   | close c tat tx =>
     exact tw_onConn w c _ _ (fun k s hk => close_hf w hq c tat tx k s hk) hQ
   | mkStream c sid =>
+    refine tw_inert w c _ _ ?_ hQ
+    inert_simp
+  | cancelCaller c wd =>
     refine tw_inert w c _ _ ?_ hQ
     inert_simp
   | write c sid d =>
@@ -780,6 +783,8 @@ theorem step_fields (w : World) (op : Op) (h : ∀ a hd r t e x, op ≠ .sdgram 
     simp [step, (onConn_server_fields _ _ _ _).1, (onConn_server_fields _ _ _ _).2.1, (onConn_server_fields _ _ _ _).2.2.1]
   | mkStream c sid =>
     simp [step, World.onProto, (onConn_server_fields _ _ _ _).1, (onConn_server_fields _ _ _ _).2.1, (onConn_server_fields _ _ _ _).2.2.1]
+  | cancelCaller c wd =>
+    simp [step, World.onProto, (onConn_server_fields _ _ _ _).1, (onConn_server_fields _ _ _ _).2.1, (onConn_server_fields _ _ _ _).2.2.1]
   | write c sid d =>
     simp only [step, World.onProto]; (repeat' split) <;> simp [(onConn_server_fields _ _ _ _).1, (onConn_server_fields _ _ _ _).2.1, (onConn_server_fields _ _ _ _).2.2.1]
   | eof c sid =>
@@ -913,6 +918,8 @@ theorem step_k (w : World) (op : Op) (hs : (step w op).1.vSeal = false) :
     have := step_fields w (.close c tat tx) (by intros; simp); exact keep _ this.1 this.2.1 this.2.2 hs
   | mkStream c sid =>
     have := step_fields w (.mkStream c sid) (by intros; simp); exact keep _ this.1 this.2.1 this.2.2 hs
+  | cancelCaller c wd =>
+    have := step_fields w (.cancelCaller c wd) (by intros; simp); exact keep _ this.1 this.2.1 this.2.2 hs
   | write c sid d =>
     have := step_fields w (.write c sid d) (by intros; simp); exact keep _ this.1 this.2.1 this.2.2 hs
   | eof c sid =>
